@@ -420,7 +420,10 @@ class Image:
         else:
             self.date.append(image.date)
 
-        # Relative time - combine internal stored times
+        # Relative time - combine internal stored times. Without dates, relative times
+        # cannot be retrieved from absolute times later on; keep them as they are.
+        if offset is None and (self._is_none(self.date) or self._is_none(image.date)):
+            offset = 0
         if self._is_none(self.time) or self._is_none(image.time) or offset is None:
             time = None
         else:
